@@ -76,8 +76,11 @@ class TypeRegistry:
             if not self.validator(f):
                 raise TypeError(f'Invalid register target: {f}, must pass <{self.validator}> validate')
             self._registry.insert(0, (detector, f, priority))
-            if priority:
-                self._registry.sort(key=lambda v: -v[2])
+            # always keep the priority order (stable: the latest registration stays first among equals),
+            # a registration with the default priority must not jump ahead of higher priorities
+            self._registry.sort(key=lambda v: -v[2])
+            # resolved types may now resolve differently
+            self._cache.clear()
             return f
 
         # before runtime, type will be compiled and applied
